@@ -145,7 +145,7 @@ def run(ctx):
     invs = "".join("INVARIANT %s\n" % i for i in ("RoundTrip", "NaNStaysNaN", "PredictsOriginalLabels",
                                                   "ProbaAgreesWithPlain", "ColumnsMatchClasses"))
     base = "SPECIFICATION Spec\nCONSTANTS LabelSets <- %s\n MaxLen = %d\n"
-    r = ctx.add_mc("TargetInv", tlc.run("MC_TargetInv", base % ("MCLabelSets", 4 if thorough else 3) +
+    r = ctx.add_mc("TargetInv", tlc.run("MC_TargetInv", base % ("MCLabelSets", 5 if thorough else 3) +
                                          " DEV_ExpM1PairedWithLog = FALSE\n DEV_ClassesInPermOrder = FALSE\n" + invs,
                                          workers=16, coverage=True, timeout=1500))
     ctx.require_coverage(r, ["Fit"], "TargetInv")
@@ -172,7 +172,7 @@ def run(ctx):
             ctx.violation("CallSucceeds", RSITE, "name=%s" % name, repr(e))
     label_sets = [[0, 1], [0, 1, 2], [2, 5, 7], [1, 3, 4, 9], [3, 8], [0, 2, 4, 6]]
     if thorough:
-        label_sets += [[0, 1, 2, 3, 4], [10, 20, 30, 45, 70]]
+        label_sets += [[0, 1, 2, 3, 4], [10, 20, 30, 45, 70], [4, 6], [1, 2, 3], [0, 5, 6, 8]]
     k = 0
     for labels in label_sets:
         m = len(labels)
